@@ -36,8 +36,18 @@ var v01gReaderCfgs = [][4]int{{2, 1, 1, 0}, {2, 7, 1 << 20, 1}, {3, 1, 1 << 20, 
 
 // v01gRun writes nvals values, one values frame (and types frame) per value,
 // and reads them back through the threaded scanner.
-func v01gRun(nvals int, compress bool) {
-	verif.Goroutines(true)
+func v01gRun(nvals int, compress bool) { v01gRunSched(nvals, compress, 0) }
+
+func v01gRunSched(nvals int, compress bool, sched int) {
+	combo := 0
+	if sched > 0 {
+		// schedules are the quantifier: two template combinations, EndStream
+		// nowhere or before the third value
+		verif.Schedules(sched)
+		combo = verif.Choose("combo", 2)
+	} else {
+		verif.Goroutines(true)
+	}
 	if compress {
 		verifLZ4PairModel()
 	}
@@ -48,7 +58,11 @@ func v01gRun(nvals int, compress bool) {
 	nsep := 0
 	// four values: at most one end-of-stream, at a chosen position
 	sepAt := -1
-	if nvals == 4 {
+	if nvals == 4 && sched > 1 {
+		sepAt = 2
+	} else if nvals == 4 && sched > 0 {
+		sepAt = 2 * verif.Choose("endstreamat", 2)
+	} else if nvals == 4 {
 		sepAt = verif.Choose("endstreamat", 4)
 	}
 	for i := 0; i < nvals; i++ {
@@ -64,6 +78,8 @@ func v01gRun(nvals int, compress bool) {
 			c = [2]int{v01dFirst[verif.Choose("tmpl", len(v01dFirst))], 0}
 		case compress:
 			c = [2]int{v01dSecond[verif.Choose("tmpl", len(v01dSecond))], 0}
+		case nvals == 4 && sched > 0:
+			c = v01gFour[i][combo%len(v01gFour[i])]
 		case nvals == 4:
 			c = v01gFour[i][verif.Choose("tmpl", len(v01gFour[i]))]
 		case i == 0:
@@ -88,6 +104,9 @@ func v01gRun(nvals int, compress bool) {
 	rcfgs := v01gReaderCfgs
 	if nvals == 4 {
 		rcfgs = rcfgs[:2] // two workers
+	}
+	if sched > 1 {
+		rcfgs = rcfgs[:1]
 	}
 	rc := rcfgs[verif.Choose("readercfg", len(rcfgs))]
 	threads, rsize, chunk, validate := rc[0], rc[1], rc[2], rc[3] == 1
@@ -222,7 +241,19 @@ func VerifH_C01_O9_stream_threads() {
 	v01gRun(2, false)
 }
 
-// verif:desc C01-O9b as O9 with 4 values in 4 frame pairs and 2 workers: the fourth frame is read only after a worker has come back, i.e. while results are queued and batches are with the consumer; with the releasing consumers the buffer and the batch object of the first value are taken again (sync.Pool LIFO) by the frames read later, with the holding consumer nothing may be recycled: order, null-ness, bytes and types as in O9, for held batches checked at the end of the input.
+// verif:desc C01-O9s the threaded scanner (parser goroutine, 2 decode workers, result queue, consumer) as in O9b - 4 values in 4 frame pairs, buffers and batch objects recycled through the pools - under EVERY goroutine schedule with at most 1 preemption (thorough tier: 2) at the channel operations, selects, closes, atomics, lock operations and goroutine starts of the real scanner/worker/parser code, with a bounded free choice of which runnable goroutine continues: order, null-ness, bytes (also of batches held until EOF), types and EOF do not depend on how parser, workers and consumer interleave
+// verif:bounds 4 values, 2 template combinations ({a:int64},n=int64,int64,{a:int64} / {b:string,c:n=string},{o:{a:int64}},nr={a:int64},null {a:int64}); EndStream nowhere or before the 3rd value; reader (threads, read size, source chunk, Validate) in {(2,1,1,off),(2,7,unlimited,on)}; the three consumers of O9; preemption bound 1 (thorough: 2, there with EndStream before the 3rd value and the first reader configuration only)
+// verif:outside schedules with more preemptions; field/slice loads and stores are not preemption points (data-race freedom between sync points is assumed, not checked); sync.Pool is a per-path LIFO shared by all goroutines; LZ4; more than 2 workers
+// verif:unwind 64
+func VerifH_C01_O9s_stream_threads_schedules() {
+	if verif.Thorough() {
+		v01gRunSched(4, false, 2)
+	} else {
+		v01gRunSched(4, false, 1)
+	}
+}
+
+// verif:desc C01-O9b as O9 with 4 values in 4 frame pairs and 2 workers: the fourth frame is read only after a worker has come back, i.e. while results are queued and batches are with the consumer; with the releasing consumers the buffer and the batch object of the first value are taken again (sync.Pool LIFO) by the frames read later, with the holding consumer nothing may be recycled: order, null-ness, bytes and types as in O9
 // verif:bounds 4 values: {a:int64}|{b:string,c:n=string}, n=int64|{o:{a:int64}}, int64|nr={a:int64}, {a:int64}|null {a:int64}|n=int64; at most one EndStream, before the 2nd, 3rd or 4th value; reader (threads, read size, source chunk, Validate) in {(2,1,1,off),(2,7,unlimited,on)}; the three consumers of O9
 // verif:outside as O9
 // verif:unwind 64
